@@ -9,7 +9,7 @@ GEN_ITEMS = ['coq/Gen/GenTypes.v']
 GEN_FROM = {'regen_types': ['coq/Gen/GenTypes.v']}
 LEVEL = 'proof'
 TRUSTED = ['Fold.v models simplify()/literal casts on unbounded Z as the code does; rt_op is the run-time word semantics (A-DIV: floor division)',
-           'C14_full_statement is REFUTED in the model (fold_*_refuted witnesses: 40000/3, 40000 > 0, 4/(258 is byte), (300 is byte) is int at w = 2): known finding F5, see known_findings.txt']
+           'C14_full_statement is REFUTED in the model (fold_*_refuted witnesses: 40000/3, 40000 > 0, 1/65536 at w = 2): known finding F5; the folded byte cast is proved to agree with the run-time cast for all values (C14_fold_byte_cast_agrees), see known_findings.txt']
 ASSUMPTIONS = ['a twin difference is attributed to F5 only if the constant evaluation has an intermediate value outside the signed word range or a byte cast outside 0..255 (tools/known.py:const_events); '
                'by Fold.fold_agrees_inrange no other constant expression may differ']
 
@@ -111,7 +111,7 @@ def run(ctx):
     rng = random.Random(ctx.seed)
     q = ctx.tier == 'quick'
     # canonical witnesses of the known findings run first, so that each is reported on every run
-    trees = [('bin', '/', ('lit', 40000), ('lit', 3)), ('bin', '>', ('lit', 40000), ('lit', 0)), ('bin', '/', ('lit', 4), ('isint', ('isbyte', ('lit', 258)))),
+    trees = [('bin', '/', ('lit', 40000), ('lit', 3)), ('bin', '>', ('lit', 40000), ('lit', 0)),
              ('bin', 'and', ('bin', '>', ('lit', 1), ('lit', 2)), ('bin', '>=', ('bin', '/', ('lit', 256), ('lit', 0)), ('lit', 1)))]
     # exhaustive pairs over the grid for every binary operator (depth 1), then random depth <= 3 (quick) / 5
     g = GRID if not q else GRID[:19]
